@@ -39,6 +39,12 @@ func (m *machine) execNat(op string, s M) (any, bool) {
 	case op == "N.div":
 		q, r := decimal.VerifDiv(stale(int(num(s, "zlen"))), stale(int(num(s, "zlen"))), wordsOf(s, "u"), wordsOf(s, "v"))
 		return M{"q": wordStrs(q), "r": wordStrs(r), "thr": curThr, "rec": decimal.VerifDivRecursiveThreshold}, true
+	case op == "K.tables":
+		var rows []M
+		for _, r := range decimal.VerifMagic() {
+			rows = append(rows, M{"d": strconv.FormatUint(r.D, 10), "m": strconv.FormatUint(r.M, 10), "pre": int(r.Pre), "post": int(r.Post)})
+		}
+		return M{"rows": rows}, true
 	case op == "K":
 		return m.execKernel(str(s, "k"), s), true
 	}
